@@ -91,10 +91,10 @@ PROPS['C11'] = dict(
     compile_error_is_violation=True,
     replay_unit='c11_solve_d1',
     runs=dict(
-        quick=_c11_runs(20000, 8000, 1),
-        thorough=_c11_runs(200000, 80000, 2),
+        quick=_c11_runs(60000, 25000, 1),
+        thorough=_c11_runs(400000, 150000, 2),
     ),
-    min=dict(quick=dict(cases=200000, nontrivial=100000,
+    min=dict(quick=dict(cases=600000, nontrivial=300000,
                         classes={'wrapper/DenseGenMatProd': 2000, 'wrapper/SparseHermMatProd': 2000, 'wrapper/SparseRegularInverse': 2000, 'wrapper/SparseCholesky': 2000,
                                  'wrapper/SparseGenComplexShiftSolve': 1000, 'wrapper/DenseSymShiftSolve': 1000, 'types/Dense,Sparse': 5000, 'types/Sparse,Dense': 5000,
                                  'composite/SymGEigsCayleyOp': 2000, 'composite/SymGEigsCholeskyOp': 2000, 'composite/ArnoldiOp': 1000,
@@ -103,7 +103,7 @@ PROPS['C11'] = dict(
                                  'sparse_cholesky/nontrivial_permutation': 500, 'shift/near_eigenvalue': 3000, 'rectangular': 2000, 'nonsquare_rejected': 500,
                                  'inst/SymShiftInvert<float,Sparse,Dense,Upper,Lower,RowMajor,ColMajor>': 30, 'inst/SparseSymShiftSolve<double,Upper,RowMajor,long>': 30,
                                  'inst/DenseCholesky<long double,Upper,RowMajor>': 30}),
-             thorough=dict(cases=2000000, nontrivial=1000000)),
+             thorough=dict(cases=8000000, nontrivial=3000000)),
     rule='case = (instantiation drawn uniformly from the table of the binary, n or rows x cols, sparsity pattern, content seed, integer/random entries, explicit zeros, scale, operand seeds, '
          'argument form, shift kind and position, shift-set-twice flag, kind of overwrite of the unused triangle(s), NaN-poison run, occasionally a non-square input). Each case runs the wrapper '
          'on the mirrored matrix and on at least one overwritten variant. Non-trivial = n >= 2 (both dimensions for products) and the case was not rejected; distinct = 64-bit hash of the draw log.',
